@@ -38,7 +38,14 @@ namespace CV.C12
 
 abbrev Bytes := List Nat
 
-/-- ASCII literal -/
+open Lean in
+/-- ASCII bytes of a string literal, expanded to a list of numerals at elaboration time
+    (so that nothing in the model computes on `String`s: kernel evaluation stays cheap) -/
+macro:max "b!" s:str : term => do
+  let elems := s.getString.toList.toArray.map (fun c => Syntax.mkNumLit (toString c.toNat))
+  `(([$elems,*] : List Nat))
+
+/-- ASCII bytes of a string (run time; used only to relate the generated table's strings to its byte patterns) -/
 def lit (s : String) : Bytes := s.toList.map Char.toNat
 
 inductive Endpoint | pinAdd | pinRm | pinLs | pinUpdate | add | repoStat | repoGC
@@ -184,12 +191,12 @@ def parsePair (kv : Bytes) : Option (Bytes × Bytes) :=
 
 def parseQuery (q : Bytes) : List (Bytes × Bytes) := (splitOn 38 q).filterMap parsePair
 
-def qAll (q : List (Bytes × Bytes)) (k : String) : List Bytes := (q.filter (fun kv => kv.1 == lit k)).map (·.2)
-def qGet (q : List (Bytes × Bytes)) (k : String) : Bytes := ((qAll q k).head?).getD []
+def qAll (q : List (Bytes × Bytes)) (k : Bytes) : List Bytes := (q.filter (fun kv => kv.1 == k)).map (·.2)
+def qGet (q : List (Bytes × Bytes)) (k : Bytes) : Bytes := ((qAll q k).head?).getD []
 
 /-- slashHandler: `q.Set("arg", a)` -/
 def setArg (q : List (Bytes × Bytes)) (a : Bytes) : List (Bytes × Bytes) :=
-  q.filter (fun kv => kv.1 != lit "arg") ++ [(lit "arg", a)]
+  q.filter (fun kv => kv.1 != b!"arg") ++ [(b!"arg", a)]
 
 /-! ## numbers and booleans of the add options -/
 
@@ -220,35 +227,35 @@ def uintOK (s : Bytes) : Bool :=
 
 /-- strconv.ParseBool -/
 def parseBool (s : Bytes) : Option Bool :=
-  if s == lit "1" || s == lit "t" || s == lit "T" || s == lit "TRUE" || s == lit "true" || s == lit "True" then some true
-  else if s == lit "0" || s == lit "f" || s == lit "F" || s == lit "FALSE" || s == lit "false" || s == lit "False" then some false
+  if s == b!"1" || s == b!"t" || s == b!"T" || s == b!"TRUE" || s == b!"true" || s == b!"True" then some true
+  else if s == b!"0" || s == b!"f" || s == b!"F" || s == b!"FALSE" || s == b!"false" || s == b!"False" then some false
   else none
 
 /-- parseBoolParam / parseIntParam fail -/
-def boolBad (q : List (Bytes × Bytes)) (k : String) : Bool := !(qGet q k).isEmpty && (parseBool (qGet q k)).isNone
-def intBad (q : List (Bytes × Bytes)) (k : String) : Bool := !(qGet q k).isEmpty && (atoi (qGet q k)).isNone
+def boolBad (q : List (Bytes × Bytes)) (k : Bytes) : Bool := !(qGet q k).isEmpty && (parseBool (qGet q k)).isNone
+def intBad (q : List (Bytes × Bytes)) (k : Bytes) : Bool := !(qGet q k).isEmpty && (atoi (qGet q k)).isNone
 
 /-- value of `replication-min` / `-max` after the `replication` override -/
-def replStr (q : List (Bytes × Bytes)) (k : String) : Bytes :=
-  if (qGet q "replication").isEmpty then qGet q k else qGet q "replication"
+def replStr (q : List (Bytes × Bytes)) (k : Bytes) : Bytes :=
+  if (qGet q b!"replication").isEmpty then qGet q k else qGet q b!"replication"
 
-def replBad (q : List (Bytes × Bytes)) (k : String) : Bool := !(replStr q k).isEmpty && (atoi (replStr q k)).isNone
-def replVal (q : List (Bytes × Bytes)) (k : String) : Int := if (replStr q k).isEmpty then 0 else (atoi (replStr q k)).getD 0
+def replBad (q : List (Bytes × Bytes)) (k : Bytes) : Bool := !(replStr q k).isEmpty && (atoi (replStr q k)).isNone
+def replVal (q : List (Bytes × Bytes)) (k : Bytes) : Int := if (replStr q k).isEmpty then 0 else (atoi (replStr q k)).getD 0
 
 /-- api.AddParamsFromQuery returns an error (for the keys the model covers) -/
 def addParamsErr (q : List (Bytes × Bytes)) : Bool :=
-  replBad q "replication-min" || replBad q "replication-max" ||
-  (!(qGet q "shard-size").isEmpty && !uintOK (qGet q "shard-size")) ||
-  !(qGet q "layout" == lit "trickle" || qGet q "layout" == lit "balanced" || (qGet q "layout").isEmpty) ||
-  !(qGet q "format" == lit "car" || qGet q "format" == lit "unixfs" || (qGet q "format").isEmpty) ||
-  boolBad q "local" || boolBad q "recursive" || boolBad q "hidden" || boolBad q "wrap-with-directory" ||
-  boolBad q "shard" || boolBad q "progress" || intBad q "cid-version" ||
-  boolBad q "raw-leaves" || boolBad q "stream-channels" || boolBad q "nocopy"
+  replBad q b!"replication-min" || replBad q b!"replication-max" ||
+  (!(qGet q b!"shard-size").isEmpty && !uintOK (qGet q b!"shard-size")) ||
+  !(qGet q b!"layout" == b!"trickle" || qGet q b!"layout" == b!"balanced" || (qGet q b!"layout").isEmpty) ||
+  !(qGet q b!"format" == b!"car" || qGet q b!"format" == b!"unixfs" || (qGet q b!"format").isEmpty) ||
+  boolBad q b!"local" || boolBad q b!"recursive" || boolBad q b!"hidden" || boolBad q b!"wrap-with-directory" ||
+  boolBad q b!"shard" || boolBad q b!"progress" || intBad q b!"cid-version" ||
+  boolBad q b!"raw-leaves" || boolBad q b!"stream-channels" || boolBad q b!"nocopy"
 
 /-- options of `add` the model does not cover (time-dependent or structured values, sharding) -/
 def addUnmodelled (q : List (Bytes × Bytes)) : Bool :=
-  !(qGet q "expire-at").isEmpty || !(qGet q "expire-in").isEmpty || !(qGet q "pin-update").isEmpty ||
-  !(qGet q "origins").isEmpty || parseBool (qGet q "shard") == some true
+  !(qGet q b!"expire-at").isEmpty || !(qGet q b!"expire-in").isEmpty || !(qGet q b!"pin-update").isEmpty ||
+  !(qGet q b!"origins").isEmpty || parseBool (qGet q b!"shard") == some true
 
 /-! ## routing (gorilla/mux) -/
 
@@ -265,17 +272,34 @@ def isClean (p : Bytes) : Bool :=
   | [] :: rest => cleanSegs rest
   | _ => false
 
-/-- a route template against the path's segments; `{arg}` is `[^/]+` -/
-def matchSegs : List String → List Bytes → Option (List Bytes)
+/-- a compiled template segment: a literal, or `{arg}` = `[^/]+` -/
+inductive Pat
+  | lit (b : Bytes)
+  | var
+deriving DecidableEq, Repr
+
+def compileSeg (t : String) : Pat := if t == "{arg}" then .var else .lit (lit t)
+
+/-- a compiled route template against the path's segments; the captured variables -/
+def matchPats : List Pat → List Bytes → Option (List Bytes)
   | [], [] => some []
-  | t :: ts, s :: ss =>
-    if t == "{arg}" then (if s.isEmpty then none else (matchSegs ts ss).map (s :: ·))
-    else if lit t == s then matchSegs ts ss else none
+  | .var :: ps, s :: ss => if s.isEmpty then none else (matchPats ps ss).map (s :: ·)
+  | .lit b :: ps, s :: ss => if s == b then matchPats ps ss else none
   | _, _ => none
 
+/-- first matching route of a compiled table (mux tries routes in registration order);
+    a route wrapped in slashHandler hands the captured segment over as the argument -/
+def routeC {α : Type} (tbl : List (List Pat × α × Bool)) (segs : List Bytes) : Option (α × Option Bytes) :=
+  tbl.findSome? (fun r => (matchPats r.1 segs).map
+    (fun caps => (r.2.1, if r.2.2 then some (caps.head?.getD []) else none)))
+
+/-- the generated byte patterns of a route (`none` = `{arg}`) -/
+def patsOf (r : Gen.C12.Route) : List Pat := r.pats.map (fun o => match o with
+  | some b => Pat.lit b
+  | none => Pat.var)
+
 def routeSegs (tbl : List Gen.C12.Route) (segs : List Bytes) : Option (String × Option Bytes) :=
-  tbl.findSome? (fun r => (matchSegs r.segs segs).map
-    (fun caps => (r.handler, if r.slash then some (caps.head?.getD []) else none)))
+  routeC (tbl.map (fun r => (patsOf r, r.handler, r.slash))) segs
 
 inductive Target
   | badUrl | redirect | relay
@@ -325,25 +349,25 @@ def rpcOfString : String → RpcName
 
 /-- pinOpHandler(op) -/
 def pinOpH (e : Env) (q : List (Bytes × Bytes)) (op : RpcName) : HOut :=
-  match e.pp (qGet q "arg") with
+  match e.pp (qGet q b!"arg") with
   | none => { status := 500 }
   | some p =>
-    if e.fail op then { status := 500, rpcs := [{ name := op, path := p, direct := qGet q "type" == lit "direct", ok := false }] }
-    else { status := 200, items := [e.pinCid], rpcs := [{ name := op, path := p, direct := qGet q "type" == lit "direct" }] }
+    if e.fail op then { status := 500, rpcs := [{ name := op, path := p, direct := qGet q b!"type" == b!"direct", ok := false }] }
+    else { status := 200, items := [e.pinCid], rpcs := [{ name := op, path := p, direct := qGet q b!"type" == b!"direct" }] }
 
 def pinLsH (e : Env) (q : List (Bytes × Bytes)) : HOut :=
-  if (qGet q "arg").isEmpty then
+  if (qGet q b!"arg").isEmpty then
     if e.fail .pins then { status := 500, rpcs := [{ name := .pins, ok := false }] }
     else { status := 200, items := e.pins, rpcs := [{ name := .pins }] }
   else
-    match e.cd (qGet q "arg") with
+    match e.cd (qGet q b!"arg") with
     | none => { status := 500 }
     | some c =>
       if e.fail .pinGet then { status := 500, rpcs := [{ name := .pinGet, cid := c, ok := false }] }
       else { status := 200, items := [c], rpcs := [{ name := .pinGet, cid := c }] }
 
 def pinUpdateH (e : Env) (q : List (Bytes × Bytes)) : HOut :=
-  match qAll q "arg" with
+  match qAll q b!"arg" with
   | [] => { status := 400 }
   | [_] => { status := 400 }
   | frm :: to :: _ =>
@@ -354,7 +378,7 @@ def pinUpdateH (e : Env) (q : List (Bytes × Bytes)) : HOut :=
       if e.fail .resolve then { status := 500, rpcs := [{ name := .resolve, path := pf, ok := false }] }
       else if e.fail .pinPath then
         { status := 500, rpcs := [{ name := .resolve, path := pf }, { name := .pinPath, path := pt, upd := e.resCid, ok := false }] }
-      else if qGet q "unpin" == lit "false" then
+      else if qGet q b!"unpin" == b!"false" then
         { status := 200, items := [e.resCid, e.pinCid],
           rpcs := [{ name := .resolve, path := pf }, { name := .pinPath, path := pt, upd := e.resCid }] }
       else if e.fail .unpin then
@@ -367,15 +391,15 @@ def pinUpdateH (e : Env) (q : List (Bytes × Bytes)) : HOut :=
                    { name := .unpin, cid := e.resCid }] }
 
 def addStream (q : List (Bytes × Bytes)) : Bool :=
-  if (qGet q "stream-channels").isEmpty then true else (parseBool (qGet q "stream-channels")).getD true
+  if (qGet q b!"stream-channels").isEmpty then true else (parseBool (qGet q b!"stream-channels")).getD true
 
 /-- the adder has no root: empty multipart body and no wrapping directory; Cluster.Pin refuses the undefined CID -/
 def addNoRoot (e : Env) (q : List (Bytes × Bytes)) : Bool :=
-  e.ing == 3 && !(parseBool (qGet q "wrap-with-directory") == some true)
+  e.ing == 3 && !(parseBool (qGet q b!"wrap-with-directory") == some true)
 
 def addPinRpc (q : List (Bytes × Bytes)) (root : Bytes) (ok : Bool) : Rpc :=
-  { name := .pin, cid := root, pname := qGet q "name",
-    rmin := replVal q "replication-min", rmax := replVal q "replication-max", ok := ok }
+  { name := .pin, cid := root, pname := qGet q b!"name",
+    rmin := replVal q b!"replication-min", rmax := replVal q b!"replication-max", ok := ok }
 
 /-- addHandler + AddMultipartHTTPHandler (single, non-sharded adder).
 `typedUnpin`: the argument of the final Cluster.Unpin call has the type the RPC method takes. In today's
@@ -383,7 +407,7 @@ source it is a `cid.Cid` where `Cluster.Unpin` takes a `*api.Pin`: gorpc refuses
 reaches the service, so nothing is unpinned and the handler sets `X-Stream-Error`. -/
 def addH (typedUnpin : Bool) (e : Env) (q : List (Bytes × Bytes)) (obs : AddObs) : HOut :=
   if e.ing == 0 then { status := 500 }
-  else if qGet q "only-hash" == lit "true" then { status := 500 }
+  else if qGet q b!"only-hash" == b!"true" then { status := 500 }
   else if addParamsErr q then { status := 500 }
   else if addNoRoot e q then
     (if addStream q then { status := 200, serr := true, items := obs.items, rpcs := [{ name := .pin, ok := false }] }
@@ -393,7 +417,7 @@ def addH (typedUnpin : Bool) (e : Env) (q : List (Bytes × Bytes)) (obs : AddObs
   else if e.fail .pin then
     (if addStream q then { status := 200, serr := true, items := obs.items, rpcs := [addPinRpc q obs.root false] }
      else { status := 500, rpcs := [addPinRpc q obs.root false] })
-  else if !(qGet q "pin" == lit "false") then
+  else if !(qGet q b!"pin" == b!"false") then
     { status := 200, items := obs.items, rpcs := [addPinRpc q obs.root true] }
   else if !typedUnpin then
     -- the header set after the handler returned is a trailer only when one was announced (stream mode)
@@ -451,20 +475,24 @@ def helperReqs (i : Input) (p : Bytes) : List DReq :=
 /-- a response to this method/status carries no body -/
 def bodyless (m : String) (status : Nat) : Bool := m == "HEAD" || status == 204 || status == 304
 
+/-- the observable behaviour of a hijacked request: what the handler did, plus the helper requests -/
+def mkOut (o : HOut) (d : List DReq) : Output :=
+  { status := o.status, serr := o.serr, items := o.items, rpcs := o.rpcs, dreqs := d }
+
+/-- a non-hijacked request: one daemon request, the daemon's answer -/
+def relayOut (i : Input) (p : Bytes) : Output :=
+  { status := i.env.dStatus,
+    body := if bodyless i.method i.env.dStatus then [] else i.env.dBody,
+    dhdr := i.env.dHdr,
+    dreqs := [{ method := i.method, path := fwdPath i.path p, query := i.query, hdrs := i.hdrs, body := i.body }] }
+
 def runWith (mths : List String) (tbl : List Gen.C12.Route) (typedUnpin : Bool) (i : Input) (obs : AddObs) : Output :=
   match routeWith mths tbl i.method i.path with
   | .badUrl => { status := 400 }
   | .redirect => { status := 301 }
-  | .relay =>
-    { status := i.env.dStatus,
-      body := if bodyless i.method i.env.dStatus then [] else i.env.dBody,
-      dhdr := i.env.dHdr,
-      dreqs := [{ method := i.method, path := fwdPath i.path ((pctDecode false i.path).getD []), query := i.query,
-                  hdrs := i.hdrs, body := i.body }] }
+  | .relay => relayOut i ((pctDecode false i.path).getD [])
   | .hijack h arg =>
-    let o := handlerOut typedUnpin h i.env (handlerQuery i arg) obs
-    { status := o.status, serr := o.serr, items := o.items, rpcs := o.rpcs,
-      dreqs := helperReqs i ((pctDecode false i.path).getD []) }
+    mkOut (handlerOut typedUnpin h i.env (handlerQuery i arg) obs) (helperReqs i ((pctDecode false i.path).getD []))
 
 def run (i : Input) (obs : AddObs) : Output := runWith Gen.C12.methods Gen.C12.routes typedUnpinNow i obs
 
@@ -476,7 +504,7 @@ def arm (i : Input) (obs : AddObs) : String :=
   | .relay => "relay-" ++ i.method
   | .hijack h arg =>
     let o := handlerOut typedUnpinNow h i.env (handlerQuery i arg) obs
-    let unpinRefused := h == "addHandler" && o.status == 200 && qGet (handlerQuery i arg) "pin" == lit "false" &&
+    let unpinRefused := h == "addHandler" && o.status == 200 && qGet (handlerQuery i arg) b!"pin" == b!"false" &&
       o.rpcs.length == 1 && o.rpcs.all (·.ok)
     h ++ (if unpinRefused then "-unpin-refused" else "") ++ (if arg.isSome then "-slash" else "") ++ "-" ++ toString o.status ++ (if o.serr then "-serr" else "") ++
       (if o.rpcs.any (fun r => !r.ok) then "-rpcfail" else "")
@@ -486,9 +514,9 @@ def oracleArgs (i : Input) : List Bytes :=
   match route i.method i.path with
   | .hijack h arg =>
     let q := handlerQuery i arg
-    if h == "pinUpdateHandler" then (qAll q "arg").take 2
-    else if h == "pinHandler" || h == "unpinHandler" then [qGet q "arg"]
-    else if h == "pinLsHandler" then (if (qGet q "arg").isEmpty then [] else [qGet q "arg"])
+    if h == "pinUpdateHandler" then (qAll q b!"arg").take 2
+    else if h == "pinHandler" || h == "unpinHandler" then [qGet q b!"arg"]
+    else if h == "pinLsHandler" then (if (qGet q b!"arg").isEmpty then [] else [qGet q b!"arg"])
     else []
   | _ => []
 
